@@ -120,3 +120,24 @@ MUTANTS += [
          why="true S_v estimated by a three-point parabolic peak fit (refinement law on true spectra: the estimate of the raw record "
              "exceeds that of the refined one)"),
 ]
+
+# ---- survivors reported by the audit of C02 (notes/audit/C02.md section 5)
+MUTANTS += [
+    dict(id="c02-a-s1-setter-keeps-cache-for-same-set", prop="C02", file="eqsig/single.py",
+         old="        self._response_times = values\n        self._cached_response_spectra = False\n",
+         new="        old = getattr(self, '_response_times', None)\n        self._response_times = values\n"
+             "        if old is None or sorted(np.asarray(old, float).tolist()) != sorted(np.asarray(values, float).tolist()):\n"
+             "            self._cached_response_spectra = False\n",
+         why="audit S1: the response_times setter keeps the cached spectra when the new list holds the same periods in another order"),
+    dict(id="c02-a-s2-dt-rounded-12-digits", prop="C02", file="eqsig/sdof.py",
+         old="    dt = float(dt)\n    xi = float(xi)\n", new="    dt = round(float(dt), 12)\n    xi = float(xi)\n",
+         why="audit S2: dt and dt/m are rounded differently, the refined run integrates a slightly different step"),
+    dict(id="c02-a-s3-negate-in-record-dtype", prop="C02", file="eqsig/sdof.py",
+         old="    acc = -np.array(acc, dtype=float)\n", new="    acc = np.negative(acc).astype(float)\n",
+         why="audit S3: the sign flip happens in the record's dtype - unsigned and most-negative integer samples wrap around"),
+    dict(id="c02-a-s4-true-sa-t0-float32", prop="C02", file="eqsig/sdof.py",
+         old="    sas = np.where(periods < dt * 6, absmax(motion), sas)\n    return sds, svs, sas\n\n\n# def plot_response_spectra",
+         new="    sas = np.where(periods < dt * 6, absmax(motion), sas)\n    if periods[0] == 0:\n        sas[0] = np.float32(sas[0])\n"
+             "    return sds, svs, sas\n\n\n# def plot_response_spectra",
+         why="audit S4: true S_a at T=0 in single precision - no longer scales by |alpha|"),
+]
